@@ -398,6 +398,9 @@ func runExtract(c *Case, r *mon.Rec, fr specref.Framing, rng *rand.Rand) {
 			continue
 		}
 		pr, _ := specref.DecodeResp(fr, reply)
+		if c.Seed%2 == 0 {
+			resp = libx.ValueForm(resp) // callers hold responses by value as well as by pointer
+		}
 		vals, xerr := rq.ExtractFields(resp, true)
 		r.Eval(len(vals))
 		wrong, rev := 0, true
